@@ -213,7 +213,7 @@ static int cmd_run(int argc, char **argv) {
     std::vector<Viol> viols; Cov total; uint64_t evaluations = 0; int machinery = 0;
     std::vector<std::string> traceLines(trace.empty() ? 0 : runs);
 
-    struct Wk { pid_t pid = -1; int fd = -1; uint64_t next; uint64_t curIdx = 0; uint32_t curVar = 0; bool inRun = false; std::string buf; int inc = 0; bool done = false; };
+    struct Wk { pid_t pid = -1; int fd = -1; uint64_t next; uint64_t curIdx = 0; uint32_t curVar = 0; bool inRun = false; std::string buf; int inc = 0; bool done = false; bool restart = false; };
     std::vector<Wk> wk((size_t)jobs);
     auto spawn = [&](int w) {
         int fd[2]; if (pipe(fd)) { machinery++; wk[(size_t)w].done = true; return; }
@@ -234,6 +234,9 @@ static int cmd_run(int argc, char **argv) {
                     Verdict v = run_scn(*sc, vs[vi], cov, false);
                     arm(0);
                     fprintf(pf, "R %llu %u %llu %llu %d %s\n", (unsigned long long)i, vi, (unsigned long long)plan_hash(vs[vi]), (unsigned long long)v.loghash, v.ok ? 1 : 0, v.ok ? "-" : v.sig.c_str());
+#ifdef COSIM_VALGRIND
+                    if (!v.ok && v.sig.find("/memcheck/") != std::string::npos) { cov_write(cov, covf); fprintf(pf, "X\n"); fflush(pf); _exit(0); }   // restart: memcheck does not stop at an invalid write, the heap of this worker is no longer trustworthy
+#endif
                     if (!v.ok) break;                       // a failing base or clean plan is not swept
                     if (sc->sweep && vi == 0) vs.push_back(sc->clean ? sc->clean(p) : p);
                     else if (sc->sweep && vi == 1 && !swept) { swept = true; arm(5 * TSCALE); auto e = sc->sweep(p); arm(0); vs.insert(vs.end(), e.begin(), e.end()); }
@@ -252,6 +255,7 @@ static int cmd_run(int argc, char **argv) {
         else if (l[0] == 'R') { unsigned long long i, ph, lh; unsigned v; int ok; char sig[512]; sig[0] = 0; sscanf(l.c_str() + 2, "%llu %u %llu %llu %d %511[^\n]", &i, &v, &ph, &lh, &ok, sig);
             evaluations++; if (!ok) viols.push_back({i, v, sig}); if (!trace.empty() && i < traceLines.size()) traceLines[i] += l + "\n"; }
         else if (l[0] == 'E') { k.inRun = false; k.done = true; }
+        else if (l[0] == 'X') { k.inRun = false; k.restart = true; }
     };
     while (true) {
         std::vector<pollfd> pf; std::vector<int> idx;
@@ -266,6 +270,7 @@ static int cmd_run(int argc, char **argv) {
             close(k.fd); k.fd = -1; int st = 0; waitpid(k.pid, &st, 0);
             cov_merge(total, g_tmpdir + "/w" + std::to_string(idx[q]) + "." + std::to_string(k.inc) + ".cov");
             if (k.done) continue;
+            if (k.restart) { k.restart = false; k.next = k.curIdx + (uint64_t)jobs; k.inc++; if (k.next < runs) spawn(idx[q]); else k.done = true; continue; }
             // died inside a run
             std::string err = read_file(g_tmpdir + "/w" + std::to_string(idx[q]) + "." + std::to_string(k.inc) + ".err");
             if (!k.inRun) { machinery++; fprintf(stderr, "worker %d died outside a run (status %d)\n%s\n", idx[q], st, err.substr(0, 2000).c_str()); continue; }
@@ -291,7 +296,7 @@ static int cmd_run(int argc, char **argv) {
             // a memory error may be classified differently in a worker with a long heap history (e.g. 'unknown-crash' vs
             // 'heap-buffer-overflow'): the fresh child is the reference, as long as it fails and does so reproducibly
             std::string sigUsed = kv.first;
-            if (!r1.v.ok && !r2.v.ok && r1.v.sig == r2.v.sig && r1.v.loghash == r2.v.loghash && r1.v.sig != kv.first && ((r1.crashed && kv.first.find("/crash/") != std::string::npos) || (kv.first.find("/memcheck/") != std::string::npos && r1.v.sig.find("/memcheck/") != std::string::npos))) { fprintf(stderr, "note: run %llu: worker reported %s, fresh process reproduces as %s\n", (unsigned long long)v.index, kv.first.c_str(), r1.v.sig.c_str()); sigUsed = r1.v.sig; }
+            if (!r1.v.ok && !r2.v.ok && r1.v.sig == r2.v.sig && r1.v.loghash == r2.v.loghash && r1.v.sig != kv.first && (kv.first.find("/crash/") != std::string::npos || kv.first.find("/memcheck/") != std::string::npos) && (r1.crashed || r1.v.sig.find("/memcheck/") != std::string::npos)) { fprintf(stderr, "note: run %llu: worker reported %s, fresh process reproduces as %s\n", (unsigned long long)v.index, kv.first.c_str(), r1.v.sig.c_str()); sigUsed = r1.v.sig; }
             if (r1.v.ok || r2.v.ok || r1.v.sig != sigUsed || r2.v.sig != sigUsed || r1.v.loghash != r2.v.loghash) {
                 fprintf(stderr, "GATE FAILED: run %llu variant %u sig %s does not reproduce identically (r1 ok=%d sig=%s lh=%llu; r2 ok=%d sig=%s lh=%llu)\n", (unsigned long long)v.index, v.variant, kv.first.c_str(), r1.v.ok, r1.v.sig.c_str(), (unsigned long long)r1.v.loghash, r2.v.ok, r2.v.sig.c_str(), (unsigned long long)r2.v.loghash);
                 machinery++; continue;
